@@ -451,6 +451,16 @@ fn doc_case(text: &[u32], bounds: &[usize], pat: Option<&[u32]>) -> Value {
     })
 }
 
+/// A slice for a message: whole when short, else its head and length (the replay case holds
+/// everything).
+fn show<T: std::fmt::Debug>(v: &[T]) -> String {
+    if v.len() <= 48 {
+        format!("{v:?}")
+    } else {
+        format!("{:?}..({} items)", &v[..24], v.len())
+    }
+}
+
 struct DocCtx<'a> {
     text: &'a [u32],
     bounds: &'a [usize],
@@ -462,11 +472,11 @@ impl DocCtx<'_> {
         Finding {
             sig,
             detail: format!(
-                "{detail}; text={:?} bounds={:?}{}",
-                self.text,
-                self.bounds,
+                "{detail}; text={} bounds={}{}",
+                show(self.text),
+                show(self.bounds),
                 match pat {
-                    Some(p) => format!(" pattern={p:?}"),
+                    Some(p) => format!(" pattern={}", show(p)),
                     None => String::new(),
                 }
             ),
@@ -593,7 +603,9 @@ fn check_structure<D: Document>(
         st.calls += 1;
         let obs = vcore::catch(|| d.lookup(TextOffset(off)).map(|r| r.0));
         if let Ok(Ok(r)) = &obs {
-            outcomes.insert(vcore::stable_hash(&("lookup", off, *r)));
+            if off < 256 {
+                outcomes.insert(vcore::stable_hash(&("lookup", off, *r)));
+            }
         }
         let exp = record_of[off];
         let class = if starts[off] {
@@ -644,7 +656,9 @@ fn check_structure<D: Document>(
         }
         let obs = vcore::catch(|| d.retrieve(RecordOffset(r)));
         if let Ok(Ok(v)) = &obs {
-            outcomes.insert(vcore::stable_hash(&("retrieve", v)));
+            if r < 256 && v.len() <= 256 {
+                outcomes.insert(vcore::stable_hash(&("retrieve", v)));
+            }
         }
         let exp = naive_record(text, bounds, r).to_vec();
         if let Some((sig, detail)) = judge(subj, "retrieve", class, obs, Some(&exp)) {
@@ -671,6 +685,10 @@ fn check_structure<D: Document>(
         let mut seen: HashSet<String> = HashSet::new();
         let mut prev: Option<(usize, std::time::Duration)> = None;
         for r in far_ladder() {
+            if r <= 2 * n + 1 {
+                // still a record (or already asked above) in a long text
+                continue;
+            }
             st.calls += 1;
             let (obs, dt) = timed(|| {
                 vcore::catch(|| {
